@@ -9,7 +9,7 @@ import (
 
 // TextPair is one key=value token of a Text handler line, decoded.
 type TextPair struct {
-	Key, Val           string
+	Key, Val             string
 	KeyQuoted, ValQuoted bool
 }
 
